@@ -501,13 +501,13 @@ def run_case(case):
         if env is not None:
             for qn, st in enumerate(steps_of(case)):
                 n_ops = len(rec.ops)
-                rec.read_log()
+                # (no read_log here: what the helper logged while the environment was created - e.g. a
+                # fault plan that fires with the handshake - is attributed to the first step)
                 n_ev = len(rec.events)
                 # InferenceStateSubprocess objects alive when the step starts (python ids)
                 alive0 = sorted(pid_ for pid_, ref in rec.live.items() if ref() is not None)
                 if qn in case.get('kills', ()):
                     ev = harness_kill(rec)
-                    n_ev = len(rec.events)
                     if ev is not None:
                         rec.events.append(ev)
                 q = do_step(env, slots, st, timeout=case.get('timeout', HANG_AFTER))
